@@ -1,6 +1,7 @@
 """C10 (one clause): out-of-range indices and pops from empty containers are reported; a fixed-capacity
 queue refuses the push that would exceed its capacity. Sequence equality with Vec/VecDeque and drop
 counts are NOT decided."""
+from vlib import fixtures
 from props import _refusal_common as rc
 
 FILES = ['src/containers/fast_vec.rs', 'src/containers/specialized/valvec32.rs', 'src/containers/specialized/circular_queue.rs',
@@ -12,6 +13,7 @@ FILES = ['src/containers/fast_vec.rs', 'src/containers/specialized/valvec32.rs',
 
 def run(ctx):
     fx = ctx.facts("default")
+    fixtures.run(ctx, ['state', 'taint'])
     rc.unsafe_sinks(ctx, fx, FILES, "R-GUARD")
     ctx.floor("R-GUARD.entries", 25)
     ctx.floor("R-GUARD.unchecked_sinks", 20)
